@@ -46,7 +46,11 @@ CHECKS['C11'] = dict(
     category='other',
     technique='contract-based deductive verification of the codec kernels (pyvc segment lemmas over the real '
               'encoder/decoder loop bodies, quantified array obligations, z3); bounded write->read pairs as stand-in',
-    text='Run-length codec: one arbitrary iteration of the real runlength_encode / runlength_decode loops is proved '
+    text='Texture name block: one arbitrary iteration of the real _lmp_write_textures loop followed by the reader\'s '
+         'terminator search is proved, for every name without NUL and every earlier block content, to read back exactly '
+         'the name from the offset written, to only append to the block, and to reject exactly the names of 128+ '
+         'characters. '
+         'Run-length codec: one arbitrary iteration of the real runlength_encode / runlength_decode loops is proved '
          'to emit / consume exactly a literal run plus zero-run markers whose counts are in 1..255 and add up to the '
          'run length (inner loops by invariant + variant); find_or_insert proved to return a stable index of an '
          'equal-keyed element and keep its index map consistent. The whole-buffer round trip is the structural '
